@@ -8,10 +8,10 @@ Import ListNotations.
 Open Scope N_scope.
 
 (* Every configuration (shared or executable, forced or default write mode, one or many threads, old output
-   being executed or not), every prior state of the output path and every failure point at which wild RETURNS an
+   being executed or not, any name for the parked old output) in a directory wild may modify, every prior state of the output path and every failure point at which wild RETURNS an
    error: afterwards the output path is absent, or still bound to the old inode with its old contents. *)
 Theorem C18_failed_link_leaves_no_output :
-  forall c s0, prior_ok s0 -> crash c = false -> snd (link c s0) = false ->
+  forall c s0, prior_ok s0 -> crash c = false -> dir_writable c = true -> snd (link c s0) = false ->
     observe s0 (fst (link c s0)) = Absent \/ observe s0 (fst (link c s0)) = Untouched.
 Proof. exact failed_link_outcome. Qed.
 Print Assumptions C18_failed_link_leaves_no_output.
@@ -30,6 +30,13 @@ Theorem C18_refuted_when_killed :
   observe (fs0 false) (fst (link (cfg_of false None true false AfterSetSize true) (fs0 false))) = Changed (Fresh false).
 Proof. exact killed_link_leaves_partial_file. Qed.
 Print Assumptions C18_refuted_when_killed.
+
+(* NOT covered either: a directory in which wild may not remove names, holding a writable old output — the old inode
+   is reopened with O_TRUNC and cannot be removed afterwards; known_findings.json C18-unwritable-directory *)
+Theorem C18_refuted_in_unwritable_directory :
+  observe (fs0 true) (fst (link (cfg_ro true None true false InWrite false) (fs0 true))) = Changed (Fresh false).
+Proof. exact unwritable_directory_leaves_modified_file. Qed.
+Print Assumptions C18_refuted_in_unwritable_directory.
 
 Example C18_hypotheses_satisfiable :
   prior_ok (fs0 true) /\ snd (link (cfg_of true None true false InWrite false) (fs0 true)) = false /\
